@@ -199,13 +199,14 @@ void runSpace(const std::string& mode, const Space& sp, const Args& args, Report
     const long nLeaves = 1L << (sp.dim*(sp.height-1));
     rep.spaces.push_back(sp.describe());
     forEachPattern(nLeaves, sp.maxSubset, args.slice, args.nbSlices, [&](const std::vector<long>& leaves){
-        if(rep.timeUp()){ rep.exhaustive = false; return; }
+        if(rep.timeUp()){ rep.cut(); return; }
         pg.publish(rep);
         for(const int motif : sp.motifs) for(const int boxId : sp.boxIds) for(const long upper : sp.uppers){
             const Box& box = boxes()[boxId];
             if(mode == "C08"){
                 if(!pg.begin("groupings of: " + makeSpec(sp.dim, sp.height, leaves, motif, box, 10000000L, false, upper).str())) continue;
                 evalGroupings<Dim>(sp.dim, sp.height, leaves, motif, box, upper, sp.allBlockSizes, rep);
+                if(rep.samples.size() < 6 && (rep.samples.empty() || leaves.size() >= 3)) rep.sample("every grouping of: " + makeSpec(sp.dim, sp.height, leaves, motif, box, 10000000L, false, upper).str());
                 continue;
             }
             for(const long bs : blockSizesFor(long(leaves.size()), sp.allBlockSizes)) for(int og = 0 ; og < 2 ; ++og){
@@ -243,7 +244,7 @@ void runTyped(const Space& sp, const Args& args, Report& rep, Progress& pg){
     const long nLeaves = 1L << (sp.dim*(sp.height-1));
     rep.spaces.push_back("typed (coordinate,data,extra values) in {(float,float,0),(float,double,2),(double,float,3),(double,double,5)}: " + sp.describe());
     forEachPattern(nLeaves, sp.maxSubset, args.slice, args.nbSlices, [&](const std::vector<long>& leaves){
-        if(rep.timeUp()){ rep.exhaustive = false; return; }
+        if(rep.timeUp()){ rep.cut(); return; }
         pg.publish(rep);
         for(const int motif : sp.motifs) for(const int boxId : sp.boxIds)
             for(const long bs : blockSizesFor(long(leaves.size()), sp.allBlockSizes)) for(int og = 0 ; og < 2 ; ++og){
@@ -263,7 +264,7 @@ void runHilbert(const std::string& mode, const Space& sp, const Args& args, Repo
     const long nLeaves = 1L << (3*(sp.height-1));
     rep.spaces.push_back("hilbert " + sp.describe());
     forEachPattern(nLeaves, sp.maxSubset, args.slice, args.nbSlices, [&](const std::vector<long>& leaves){
-        if(rep.timeUp()){ rep.exhaustive = false; return; }
+        if(rep.timeUp()){ rep.cut(); return; }
         pg.publish(rep);
         for(const int motif : sp.motifs) for(const int boxId : sp.boxIds) for(const long upper : sp.uppers)
             for(const long bs : blockSizesFor(long(leaves.size()), sp.allBlockSizes)) for(int og = 0 ; og < 2 ; ++og){
@@ -359,7 +360,7 @@ void runBoxLattice(const std::string& mode, const Args& args, Report& rep, Progr
     unsigned long ordinal = 0;
     for(int ic = -20 ; ic <= 20 ; ++ic) for(int iw = 1 ; iw <= 40 ; ++iw) for(int h = 1 ; h <= (Dim == 1 ? 8 : 5) ; ++h){
         if((ordinal++) % args.nbSlices != args.slice) continue;
-        if(rep.timeUp()){ rep.exhaustive = false; return; }
+        if(rep.timeUp()){ rep.cut(); return; }
         Spec s; s.dim = Dim; s.height = h; s.centre.fill(ic/10.0); s.widths.fill(iw/10.0); s.blockSize = 2; s.upperLevel = 2;
         const long cells = 4L << (h-1);
         Particle lo; lo.lat = vref::zeroCoord();
@@ -415,8 +416,7 @@ int main(int argc, char** argv){
     if(!args.replay.empty()) return replayOne(args.mode, args.replay);
     return supervise(args, args.mode, [&](Report& rep, Progress& pg){
         for(const Space& sp : spacesFor(args.mode, args.tier)){
-            if(rep.timeUp()){ rep.exhaustive = false; break; }
-            runSpaceDyn(args.mode, sp, args, rep, pg);
+            runSpaceDyn(args.mode, sp, args, rep, pg);      // (after the deadline every remaining space records itself as cut)
         }
         if(args.mode == "C01" || args.mode == "C02" || args.mode == "C06"){
             const std::vector<int> mH = (args.mode == "C06") ? std::vector<int>{MCentre, MMixed, MCorner, MTwo, MUpperFace} : std::vector<int>{MMixed, MTwo};
